@@ -59,6 +59,7 @@ type HistCfg struct {
 	BigMines      bool
 	NoInitialSwap bool
 	SlowPays      bool // payment calls that block longer than the retry budget
+	PeerMoves     bool // the counterparty of a live swap sends cancel / a useless coop_close at any point
 	Weights       map[string]int
 }
 
@@ -402,6 +403,41 @@ func (h *Hist) actResolvePending() {
 	h.class(fmt.Sprintf("htlc-resolved:%v", settle))
 }
 
+// actPeerMove lets the counterparty of a live swap deviate: it sends a cancel, or a coop_close with a
+// useless key, for that swap at whatever point the swap is in (as the protocol allows a peer to do).
+func (h *Hist) actPeerMove() {
+	t := h.T
+	type cand struct {
+		n    *sim.Node
+		id   string
+		peer string
+		st   string
+	}
+	var cands []cand
+	for _, n := range h.nodes() {
+		if !h.alive(n) {
+			continue
+		}
+		for _, s := range n.Swaps() {
+			if isTerminal(s.Current) || s.Data == nil || s.Data.PeerNodeId == "" {
+				continue
+			}
+			cands = append(cands, cand{n, s.SwapId.String(), s.Data.PeerNodeId, string(s.Current)})
+		}
+	}
+	if len(cands) == 0 {
+		return
+	}
+	sort.Slice(cands, func(i, j int) bool { return cands[i].n.Name+cands[i].id < cands[j].n.Name+cands[j].id })
+	c := cands[rapid.IntRange(0, len(cands)-1).Draw(t, "pmSwap")]
+	typ := rapid.SampledFrom([]int{mtCancel, mtCancel, mtCoopClose}).Draw(t, "pmType")
+	payload := buildMessage(t, typ, c.id, "", "btc", "")
+	crashed, err := c.n.Deliver(c.peer, typ, payload)
+	h.opf("peermove(%s,%d,%s in %s) err=%v crashed=%v", c.n.Name, typ, c.id[:6], strings.TrimPrefix(c.st, "State_"), err != nil, crashed)
+	h.class(fmt.Sprintf("peermove:%d:%s", typ, strings.TrimPrefix(c.st, "State_")))
+	h.handleCrash(c.n, crashed)
+}
+
 // settleAll delivers everything that is deliverable (honest environment burst).
 func (h *Hist) actSettle() {
 	before := len(h.W.Sent)
@@ -559,6 +595,9 @@ func (h *Hist) stdActions() map[string]func() {
 	}
 	if h.Cfg.Faults {
 		m["fault"] = h.actFault
+	}
+	if h.Cfg.PeerMoves {
+		m["peermove"] = h.actPeerMove
 	}
 	if h.Cfg.PayOutcomes {
 		m["payplan"] = h.actPayPlan
